@@ -179,6 +179,17 @@ func shapeScripts(seed int64) []Driver {
 				}
 			}
 		}
+		// graceful shutdown, then a unary Invoke whose refusal reaches the caller's endpoint between
+		// newStream and SendMsg (the call is held at the yield point inside Invoke): the caller must
+		// be told Unavailable, the status of the refusal
+		for _, fc := range []bool{true, false} {
+			l := []string{"open t=0 md=who=s peer=p0", "ds t=0", "dc t=0", "ds t=0",
+				"cnew r=0 t=0 shape=BD method=auto md=-", "dc t=0", "shutdown",
+				"hold tag=client.invoked", "cinvoke r=1 t=0 size=30 md=-", "dc t=0", "ds t=0", "ds t=0", "release",
+				"dc t=0", "dc t=0", "dc t=0", "ds t=0", "cclose r=0", "dc t=0", "hrecv r=0", "hret r=0 code=0",
+				"ds t=0", "ds t=0", "ds t=0", "crecv r=0", "crecv r=0"}
+			add(Config{Mode: mode, CDisable: !fc && mode == "fwd", SDisable: !fc && mode == "rev"}, l)
+		}
 		// a raw tunnel server answers a non-streaming-response call with two messages and leaves the
 		// stream open: the caller gets an error, and the RPC must be cancelled and forgotten
 		for _, shape := range []string{"U", "CS"} {
